@@ -8,17 +8,25 @@
 #[verifier::external_body] pub struct GlobalGoEnv { _p: u64 }
 
 pub uninterp spec fn go_call_of(goenv: &GlobalGoEnv, e: &CExpr) -> Expr;
-pub uninterp spec fn go_stmt_of_go(goenv: &GlobalGoEnv, c: &ImmExpr) -> Stmt;
 
 // compile_cexpr: the Go expression for a complex expression; for calls it is a Go call (assumed: verified nowhere)
 #[verifier::external_body]
 pub fn compile_cexpr(goenv: &GlobalGoEnv, e: &CExpr) -> (r: Expr)
     ensures r == go_call_of(goenv, e),
 { unimplemented!() }
-#[verifier::external_body]
-pub fn compile_go(goenv: &GlobalGoEnv, closure: &ImmExpr) -> (r: Stmt)
-    ensures r == go_stmt_of_go(goenv, closure), r is Go,
-{ unimplemented!() }
+pub trait VClone: Sized { fn vclone(&self) -> (r: Self) ensures r == *self; }
+impl VClone for ImmExpr { #[verifier::external_body] fn vclone(&self) -> (r: Self) { unimplemented!() } }
+impl VClone for String { #[verifier::external_body] fn vclone(&self) -> (r: Self) { unimplemented!() } }
+impl VClone for Ty { #[verifier::external_body] fn vclone(&self) -> (r: Self) { unimplemented!() } }
+#[verifier::external_body] pub fn imm_ty(imm: &ImmExpr) -> (r: Ty) { unimplemented!() }
+#[verifier::external_body] pub fn find_closure_apply_fn(goenv: &GlobalGoEnv, closure_ty: &Ty) -> (r: Option<ClosureApplyFn>) { unimplemented!() }
+#[verifier::external_body] pub fn unreached<T>() -> (r: T) requires false { unimplemented!() }
+// `go e`: ONE go statement whose call is the Go call of `apply(closure)` — the closure's apply function with the closure as its only argument
+pub open spec fn is_go_of(goenv: &GlobalGoEnv, closure: ImmExpr, s: Stmt) -> bool {
+    s matches Stmt::Go { call } && exists|c: CExpr| call == #[trigger] go_call_of(goenv, &c)
+        && (c matches CExpr::ECall { func, args, ty: _ } && func is ImmVar && args@.len() == 1 && args@[0] == closure)
+}
+
 
 // C09: the complex expressions whose evaluation is an observable effect even when the value is discarded
 pub open spec fn cexpr_is_effect(e: CExpr) -> bool {
